@@ -284,6 +284,9 @@ def run_section(chk, sname, f, cases, samples):
             nviol += 1
             reftext = [q[3] for q in progs if q[0] == pat and q[1] == ctx and q[2] == "ref"][0]
             sig = classify(f, vals, ctx, route, k, ref, got)
+            if os.environ.get("C15_DUMP"):
+                with open(os.environ["C15_DUMP"], "a") as df:
+                    df.write("%s\t%s\t%s\t%s\t%s\t%s\t%s\n" % (sig, k, ctx, route, ptext, got, ref))
             chk.violation(
                 sig=sig,
                 what="route %s differs from the first-class route (%s) for %s arity %d in context %s: %s  args %s  => %s ;  "
